@@ -23,7 +23,7 @@ class _Lazy(dict):
 REGISTRY = _Lazy()
 
 
-def standard(ctx, pid, run_targets, stages, known_bits=None, rule="", assumptions=None, extra=None):
+def standard(ctx, pid, run_targets, stages, known_bits=None, rule="", assumptions=None, extra=None, explain=None):
     """stages(ctx, mult, suffix, seed_offset) runs the harness stages.  If the proof or the
     correspondence is broken and no failing input was seen, search with more cases (DESIGN §1.3)."""
     P = core.proof_stage(pid, run_targets)
@@ -34,6 +34,6 @@ def standard(ctx, pid, run_targets, stages, known_bits=None, rule="", assumption
         if broken and not found and ctx.replay is None:
             core.log("%s: proof or correspondence broken; searching for a failing input with more cases" % pid)
             stages(ctx, 5, "search", 7777)
-    return core.finish(ctx, pid, P, known_bits=known_bits, rule=rule, assumptions=assumptions, extra=extra)
+    return core.finish(ctx, pid, P, known_bits=known_bits, rule=rule, assumptions=assumptions, extra=extra, explain=explain)
 
 
